@@ -30,6 +30,16 @@ def id_rewrite(t: Term) -> Term | None:
         g = kw.get("graph", t[2][0] if t[2] else None)
         if g is not None:
             return g
+    if h == "op" and t[1] == "/" and t[3][0] == "meth" and t[3][2] == "marginalize" and t[3][1] == t[2]:
+        # e / e.marginalize(r) is e.normalize_marginalize(r)  (that identity is R13.4's obligation for normalize_marginalize)
+        kw = dict(t[3][4])
+        r_ = kw.get("ranges", t[3][3][0] if t[3][3] else None)
+        if r_ is not None:
+            return ("meth", t[2], "normalize_marginalize", (), (("ranges", r_),))
+    if h == "meth" and t[2] in ("remove_in_edges", "remove_out_edges") and t[1][0] == "meth" and t[1][2] in ("remove_in_edges", "remove_out_edges") \
+            and t[1][2] > t[2]:
+        # removing edges into one set and edges out of another commute: one order is kept
+        return ("meth", ("meth", t[1][1], t[2], t[3], t[4]), t[1][2], t[1][3], t[1][4])
     if h == "meth" and t[2] == "pop" and not t[3] and t[1][0] == "meth" and t[1][2] == "districts":
         return ("the", t[1])
     if h == "index" and t[2] == const(0):
@@ -82,7 +92,12 @@ def id_rewrite(t: Term) -> Term | None:
         return ("CONDP", t[2][1], t[2][2], ("shortcut-on", t[1], t[3][3] if len(t[3]) > 3 else (t[2][3] if len(t[2]) > 3 else None)))
     if h == "rec" and t[1] == QUERY:
         f = dict(t[2])
-        return ("QUERY", f.get("outcomes"), f.get("treatments"))
+        cnd = f.get("conditions")
+        while cnd is not None and cnd[0] == "call" and str(cnd[1]).endswith("_ensure_set") and (cnd[2] or cnd[3]):
+            cnd = dict(cnd[3]).get("vertices", cnd[2][0] if cnd[2] else None)
+        if cnd is None or cnd == NONE or cnd == EMPTY or cnd == ("setlit", ()) or (cnd[0] == "setof" and cnd[1] in (EMPTY, NONE)):
+            return ("QUERY", f.get("outcomes"), f.get("treatments"))
+        return ("QUERY", f.get("outcomes"), f.get("treatments"), cnd)
     if h == "rec" and t[1] == IDENT:
         f = dict(t[2])
         q = f.get("query")
